@@ -933,7 +933,7 @@ void run_jaeger(vh::Case &c, const std::string &v, bool present, int caller_kind
 VH_TARGET(rt_inject_extract, 1,
           "a round trip is non-trivial when the flags byte carries a bit other than 'sampled', or "
           "an id has a zero half / leading zero nibble / a single bit set, or the carrier already "
-          "held multi headers of another context; distinct = distinct (flags, ids, remote, "
+          "held multi headers of another context or an earlier injection by the same propagator; distinct = distinct (flags, ids, remote, "
           "caller, stale) text")
 {
   vh::Reader &rd = c.rd;
@@ -948,6 +948,7 @@ VH_TARGET(rt_inject_extract, 1,
   bool stale_multi = rd.chance(25);
   bool with_state  = rd.chance(20);
   bool sweep       = rd.chance(30);
+  bool reused      = rd.chance(30);
   if (mode == 1)
     t.fill(0);
   if (mode == 2)
@@ -955,7 +956,7 @@ VH_TARGET(rt_inject_extract, 1,
   std::ostringstream d;
   d << "flags=0x" << hex(&flags, 1) << " trace_id=" << hex(t) << "[" << tcls << "] span_id=" << hex(s)
     << "[" << scls << "] mode=" << mode << " remote=" << remote << " caller=" << caller_kind
-    << " stale_multi=" << stale_multi << " tracestate=" << with_state << " sweep=" << sweep << "\n";
+    << " stale_multi=" << stale_multi << " tracestate=" << with_state << " sweep=" << sweep << " reused=" << reused << "\n";
   c.note(d.str());
   c.tag(flags == 0   ? "flags:00"
         : flags == 1 ? "flags:01"
@@ -966,7 +967,9 @@ VH_TARGET(rt_inject_extract, 1,
   c.tag(mode == 0 ? "src:valid" : "src:invalid");
   if (stale_multi)
     c.tag("stale-multi-headers");
-  c.nontrivial = mode == 0 && ((flags & 0xfe) != 0 || stale_multi ||
+  if (reused)
+    c.tag("reused-carrier");
+  c.nontrivial = mode == 0 && ((flags & 0xfe) != 0 || stale_multi || reused ||
                                (std::string(tcls) != "one" && std::string(tcls) != "random") ||
                                (std::string(scls) != "one" && std::string(scls) != "random"));
 
@@ -1010,6 +1013,24 @@ VH_TARGET(rt_inject_extract, 1,
       car->put(kB3Trace, "5ca1ab1e5ca1ab1e5ca1ab1e5ca1ab1e");
       car->put(kB3Span, "5ca1ab1e5ca1ab1e");
       car->put(kB3Sampled, (fl & 1) ? "0" : "1");
+    }
+    else if (reused && mode == 0)
+    {
+      // a header map that served an earlier request: the same propagator has already injected
+      // another context (other ids, the opposite sampled decision).  "Injecting and extracting the
+      // result" must still give the context injected last.
+      uint8_t ot[16], os[8];
+      for (size_t i = 0; i < 16; ++i)
+        ot[i] = static_cast<uint8_t>(~t[i]);
+      for (size_t i = 0; i < 8; ++i)
+        os[i] = static_cast<uint8_t>(~s[i]);
+      ot[15] |= 1;  // valid whatever t and s are
+      os[7] |= 1;
+      trace::SpanContext osc(trace::TraceId(nostd::span<const uint8_t, 16>(ot, 16)),
+                             trace::SpanId(nostd::span<const uint8_t, 8>(os, 8)),
+                             trace::TraceFlags(static_cast<uint8_t>((fl & 1) ^ 1)), false);
+      context::Context earlier(trace::kSpanKey, nostd::shared_ptr<trace::Span>(new trace::DefaultSpan(osc)));
+      p.p->Inject(*car, earlier);
     }
     context::Context src = source_ctx(fl);
     p.p->Inject(*car, src);
